@@ -127,6 +127,17 @@ for feat, nm in (({}, 'plain'), ({'multizone': True}, 'multizone')):
     c.ensures('one-proxy', 'len(result) == 1')
 
 
+# ---- which proxy a discovered device gets: by its product features (a plain bulb must not be addressed as a strip)
+for feat, cname in (({}, 'Light'), ({'multizone': True}, 'MultizoneLight'), ({'matrix': True}, 'MatrixLight'), ({'multizone': False, 'matrix': False}, 'Light')):
+    c = contract(LA, 'LifxLanApi._build_light', serves=['C12', 'C13', 'C07', 'C15'], name='LifxLanApi._build_light[features %r]' % (feat,))
+    def _setup(b, case, feat=feat):
+        impl = lib.device(b, 'dev', fail=False, features=feat)
+        impl.methods['req_with_resp'] = lambda I_, o, a, k: Opaque('chain', attrs={'tile_devices': PyList([PyDict({'width': 5, 'height': 6})]), 'start_index': 0})
+        api = PyObj(b.cls('bardolph.controller.lifx_lan_api', 'LifxLanApi'), {'_lifxlan': None})
+        return {'self': api, 'impl': impl}
+    c.setup(_setup)
+    c.ensures('the-proxy-class-its-features-call-for', "typename(result) == %r and result._impl is impl" % cname)
+
 # ---- the retry budget is per request: a request that was abandoned does not eat the attempts of the next one
 c = contract(LL, 'two_requests', serves=['C12'], name='lemma:two requests through the same wrapper', src='''
 def two_requests(light, count_reset):
